@@ -32,6 +32,7 @@ const (
 	shiftDelta   = 1e-6 // parallel shifts of the ray that must not change the reference count
 	tolNormal    = 1e-4 // |n - n_ref|
 	featNormal   = 1e-4 // hit must be this far from a crease to compare normals
+	radNormal    = 1e-2 // and the surface's radius of curvature there at least this (a position error of tolOnSurface turns the normal by tolOnSurface/radNormal = tolNormal)
 	tolTouch     = 1e-9 // ball tests: | |sdf| - r | relative
 )
 
@@ -294,7 +295,7 @@ func checkRay3(c *kase, s *subject3, o, d V3) {
 			c.Violate(key("RayCollisions", "hit-set"), wref, "hit %d: Scale %g, reference %g (distance along ray %g)", i, g.Scale, h.T, math.Abs(g.Scale-h.T)*dn)
 			return
 		}
-		if h.Feat < featNormal*size {
+		if h.Feat < featNormal*size || h.Rad < radNormal*size {
 			continue
 		}
 		if i > 0 && (h.T-j.hits[i-1].T)*dn < 10*tolT || i+1 < len(j.hits) && (j.hits[i+1].T-h.T)*dn < 10*tolT {
